@@ -732,6 +732,9 @@ func (g *vcgen) exit(fc *FuncContract, sig *types.Signature, args, binds []strin
 	env := g.contractEnv(fc, g.fn, sig, args, binds, results, g.st, g.oldView(g.st))
 	// parameters keep their entry values in postconditions (Go parameters are local copies)
 	for i, e := range fc.Ensures {
+		if g.eng.CurProp != "" && len(e.Label) > 4 && e.Label[0] == 'C' && e.Label[3] == ':' && e.Label[:3] != g.eng.CurProp {
+			continue // a clause of another property's check (callers still use it: it is proved there)
+		}
 		t, err := env.EvalBool(e.Expr)
 		if err != nil {
 			g.unsupported("ensures: %v", err)
